@@ -403,6 +403,8 @@ class TypeMap:
         name = t.name
         if name in ("bool", "_Bool"):
             return "_Bool"
+        if name in ("std::strong_ordering", "strong_ordering") and not t.args:
+            return "int"  # -1 less, 0 equal/equivalent, 1 greater
         if name in ("std::_Bit_reference", "_Bit_reference", "std::vector<bool>::reference"):
             return "_Bool"  # proxy reference to an element of vector<bool>: the element lvalue of the seq model
         words = name.split(" ")
@@ -480,6 +482,7 @@ class TypeMap:
             a, b = self.c(t.args[0]), self.c(t.args[1])
             tg = self.tag(a) + "__" + self.tag(b)
             self.map_insts.setdefault(tg, (a, b))
+            self.pair_insts.setdefault(tg, (a, b))  # the map model stores entries of this pair type
             return "struct vf_map_" + tg
         if last in ("set", "unordered_set", "flat_set") and t.args:
             a = self.c(t.args[0])
